@@ -24,7 +24,7 @@ RULE = ("cases: (adjacency, assignment kinds, intervention target sets, n).  dis
 ASSUMPTIONS = ["targets that are simultaneously shift- and noise-intervened are excluded (the property's quantifier does)"]
 EXHAUSTIVE = {"quick": False, "thorough": False}
 SOFT_LIMIT = {"quick": 240, "thorough": 1500}
-REQUIRED_FUNCS = ["sempler/anm.py:ANM.sample", "sempler/anm.py:ANM.__init__", "sempler/functions.py:null"]
+REQUIRED_FUNCS = ["sempler/anm.py:ANM.sample", "sempler/anm.py:ANM.__init__"]
 REQUIRED_COUNTERS = {"quick": {"columns:do": 1000, "columns:shift": 1000, "columns:noise-iv": 1000, "columns:plain": 3000,
                                "columns:do-overrides-other": 300, "assign:column-returning": 500, "assign:scalar-returning": 200,
                                "adjacency:cancelling": 300, "n:0": 100},
